@@ -199,7 +199,8 @@ Definition find (t : table) (L key h : Z) : outcome (option (Z * Z)) :=
   let start := Gen_Base.GetStartBucketIndex h bc in
   match bucket_find (t start) key h with
   | Ok r =>
-    if r =? 0 then find_loop (S (Z.to_nat bc)) t bc start 1 (Gen_O2MP.GetMaxProbe (bst (t start))) key h
+    (* the loop `for (probe = 1; WasFull() && probe <= maxProbe; ++probe)` runs at most maxProbe times: that is its fuel *)
+    if r =? 0 then find_loop (S (Z.to_nat (Gen_O2MP.GetMaxProbe (bst (t start))))) t bc start 1 (Gen_O2MP.GetMaxProbe (bst (t start))) key h
     else Ok (Some (start, r - 1))
   | Stuck => Stuck | Fuel => Fuel | Exn => Exn
   end.
